@@ -29,6 +29,9 @@ func c09Graph(rng *rand.Rand) []*triple.Triple {
 	ns := []*node.Node{gen.VNodes[0], gen.VNodes[1], gen.VNodes[4]}
 	ids := []string{"p", "q"}
 	times := []time.Time{gen.T1, gen.T2, gen.T3, gen.T2Z}
+	if rng.Intn(3) == 0 {
+		times = append(times, gen.TFarFuture, gen.TFarPast)
+	}
 	var objs []*triple.Object
 	objs = append(objs, triple.NewNodeObject(ns[0]), triple.NewNodeObject(ns[1]), triple.NewLiteralObject(gen.VLits[3]), triple.NewLiteralObject(gen.VLits[8]))
 	for _, id := range ids {
